@@ -258,6 +258,7 @@ def run_merge(c):
            "coords": [[int(round(v)) for v in row] for row in mc],
            "coords_exact": bool(np.array_equal(mc, np.round(mc))),
            "mapping": [ilist(mp) for mp in mapping],
+           "area": float(sum(g.area for g in merged.Get_list_groupElem(2))) if merged.dim == 2 else None,
            "groups": {et.name: [ilist(r) for r in g.connect] for et, g in merged.dict_groupElem.items()}}
     return res
 
